@@ -42,6 +42,7 @@ KNOWN = {
     "C15-transvec-matbase-bound": "TransVec * MatBase inner loop runs to A.cols() instead of A.rows() (wrong result / reads outside)",
     "C15-vec-transmat": "Vec * TransMat accepts non-square operands and reads outside them",
     "C15-symmat-product": "SymMat * SymMat returns only the lower triangle of AB as a symmetric matrix",
+    "C15-symmat-empty-null-offset": "SymMat::cholDec/invert, SymMat*SymMat, Mat*SymMat form `begin() - 1` on a null pointer when the dimension is 0 (UB)",
 }
 
 # ----------------------------------------------------------------------------- helpers
@@ -341,15 +342,19 @@ def r_dot(o):
 
 def r_lower(o):
     r, c, A = o[0].mat()
-    if o[0].kind == "M" and r != c:
-        return None
+    if o[0].kind == "M":       # Lower(const Mat&) -> SymMat made of the lower triangle
+        if r != c:
+            return None
+        return r, c, [[A[max(i, j)][min(i, j)] for j in range(c)] for i in range(r)]
     return r, c, [[A[i][j] if j <= i else Fraction(0) for j in range(c)] for i in range(r)]
 
 
 def r_upper(o):
     r, c, A = o[0].mat()
-    if o[0].kind == "M" and r != c:
-        return None
+    if o[0].kind == "M":       # Upper(const Mat&) -> SymMat made of the upper triangle
+        if r != c:
+            return None
+        return r, c, [[A[min(i, j)][max(i, j)] for j in range(c)] for i in range(r)]
     return r, c, [[A[i][j] if i <= j else Fraction(0) for j in range(c)] for i in range(r)]
 
 
@@ -398,7 +403,10 @@ def line_of(name, ops):
 
 
 def expected_overrun(name, sig, ops):
-    """dimension combinations on which the current C++ is known to read outside its operands (ASan abort)"""
+    """dimension combinations on which the current C++ is known to abort under the sanitizers:
+    reads outside its operands (ASan) or `begin() - 1` on the null pointer of an empty SymMat (UBSan)"""
+    if (name, sig) in (("mul", "MS"), ("mul", "SS")) and ops[1].r == 0 and (sig != "SS" or ops[0].r == 0):
+        return True
     if (name, sig) == ("mul", "VT"):
         r, c = shape(ops[1])
         return r == ops[0].r and c > r
@@ -421,9 +429,15 @@ def check_algebra_line(corr, name, sig, ops, impl_line, crashed, detail):
     payload = {"stream": "algebra", "ops": [line_of(name, ops)]}
     site = f"{name}:{sig}"
     if crashed:
-        corr.fail(f"operator {name} on {sig} reads outside its operands (sanitizer abort)", payload, site, detail)
+        if "applying non-zero offset" in detail and "null pointer" in detail:
+            corr.fail(f"operator {name} on {sig}: pointer arithmetic on the null pointer of an empty SymMat (undefined behaviour)",
+                      payload, "symmat-empty", detail)
+        else:
+            corr.fail(f"operator {name} on {sig} reads outside its operands (sanitizer abort)", payload, site, detail)
         return
     want = rule(ops)
+    if want == "free":
+        return
     if want is None:
         if impl_line != "throw BadRank":
             corr.fail(f"non-conforming operands of {name} {sig} did not raise BadRank", payload, site, impl_line)
@@ -686,7 +700,7 @@ def correspond(ctx, corr):
         numeric.append((f"op inv M {r} {c}" + ("" if r * c == 0 else " " + hs([1] * (r * c))) + f" K {H(tol)}", "inv-nonsquare", None))
     numeric.append((f"op inv M 0 0 K {H(tol)}", "inv", []))
     for _ in range(ctx.size(200, 3000)):
-        n = rng.randint(0, 5)
+        n = rng.randint(1, 5)
         A = spd_from(rng, n)
         numeric.append((f"op chol S {n}" + ("" if n == 0 else " " + hs(packed(A))) + f" K {H(1e-8)}", "chol", A))
         numeric.append((f"op sinv S {n}" + ("" if n == 0 else " " + hs(packed(A))), "sinv", A))
@@ -704,6 +718,9 @@ def correspond(ctx, corr):
     for i in range(0, len(numeric), 200):
         part = numeric[i:i + 200]
         cases.append(([p[0] for p in part], ("num", part)))
+    # dimension 0 of the packed classes: `begin() - 1` on a null pointer (one case each: they abort)
+    for line in (f"op chol S 0 K {H(1e-8)}", "op sinv S 0"):
+        cases.append(([line], ("empty-sym", line)))
 
     # ---- run (phase 1)
     lines = [c[0] for c in cases]
@@ -762,7 +779,8 @@ def correspond(ctx, corr):
                 name, sig, ops = items[li]
                 model_line = mrat[ci][li] if li < len(mrat[ci]) else ""
                 check_algebra_line(corr, name, sig, ops, "", True, crashes[ci][1][-1500:])
-                if model_line != "reads-outside-operands":
+                nulloff = "applying non-zero offset" in crashes[ci][1] and "null pointer" in crashes[ci][1]
+                if model_line != "reads-outside-operands" and not nulloff:
                     corr.disagree("algebra", [ls[li]], ["<sanitizer abort>"], [model_line])
                 out = out[:li]
             for li, (name, sig, ops) in enumerate(items[:len(out)]):
@@ -777,6 +795,16 @@ def correspond(ctx, corr):
                 if a.startswith("throw"):
                     corr.count("throws_" + a.split()[1])
                 check_algebra_line(corr, name, sig, ops, a, False, "")
+            continue
+        if kind == "empty-sym":
+            corr.case(key=None)
+            if crashed and "applying non-zero offset" in crashes[ci][1]:
+                corr.fail("SymMat of dimension 0: pointer arithmetic on a null pointer (undefined behaviour)",
+                          {"stream": "numeric", "ops": ls}, "symmat-empty", crashes[ci][1][-1500:])
+            elif crashed:
+                corr.fail("SymMat of dimension 0 aborted under the sanitizers", {"stream": "numeric", "ops": ls}, "numeric", crashes[ci][1])
+            elif out != mflt[ci]:
+                corr.disagree("empty-sym", ls, out, mflt[ci])
             continue
         if kind == "num":
             for li, (line, nk, A) in enumerate(meta[1]):
@@ -793,9 +821,10 @@ def correspond(ctx, corr):
                     if not lines_equal(a, c, rtol=1e-9, atol=1e-9):
                         corr.disagree("chol", [line], [a], [c])
                 else:
-                    if not (lines_equal(a, b, rtol=1e-7, atol=1e-9) or (nk.endswith("-any") and not a.startswith("throw") and not b.startswith("throw"))):
+                    # semidefinite / indefinite inputs divide by exact zeros: only the IEEE instance is comparable
+                    if not nk.endswith("-any") and not lines_equal(a, b, rtol=1e-7, atol=1e-9):
                         corr.disagree(nk, [line], [a], [b])
-                    if not (lines_equal(a, c, rtol=1e-7, atol=1e-9) or nk.endswith("-any")):
+                    if not lines_equal(a, c, rtol=1e-7, atol=1e-9):
                         corr.disagree(nk + "-float", [line], [a], [c])
                 # oracle on the implementation
                 if nk == "inv-nonsquare" and a != "throw BadRank":
@@ -959,7 +988,9 @@ def classify(ctx, failure):
     site, what = failure.site, failure.what
     if site == "MemRep::memcpy-null":
         return "C15-memcpy-null"
-    if ":" in site:
+    if site == "symmat-empty":
+        return "C15-symmat-empty-null-offset"
+    if site.count(":") == 1:
         name, sig = site.split(":")
         fid = DEFECT_OF.get((name, sig))
         if fid is None:
@@ -967,8 +998,6 @@ def classify(ctx, failure):
         line = (failure.replay.get("ops") or [""])[0]
         if fid == "C15-symmat-product":
             return fid if "differs from the mathematical definition" in what else None
-        if fid == "C15-transvec-matbase-bound" and sig == "WM":
-            return None      # through a Mat the generic overload is exact only for square A; still the same loop bound
         return fid
     return None
 
